@@ -9,7 +9,10 @@ EXTENDS BerEngine
 Good  == [be |-> 0, ok |-> TRUE,  it |-> 1]
 Bad1  == [be |-> 1, ok |-> FALSE, it |-> 2]     \* frame error the outer code corrects (threshold 2)
 Bad3  == [be |-> 3, ok |-> TRUE,  it |-> 2]     \* false decode, beyond the outer code's threshold
-OutAll == {Good, Bad1, Bad3}
+GaveUp == [be |-> 0, ok |-> FALSE, it |-> 3]    \* the decoder did not converge but every systematic bit is right: NOT a frame error
+OutAll == {Good, Bad1, Bad3, GaveUp}
+OutQuick == {Good, Bad3, GaveUp}                \* quick tier: one error kind; the outer-code configuration uses OutBch
+OutBch == {Good, Bad1, Bad3}
 OutErr == {Bad3}                                \* every frame is an error: finite state space for the liveness runs
 NoFaults == {}
 AllFaults == {"stage_err", "panic"}
